@@ -45,14 +45,14 @@ STATUS_METHOD = {"success": "addSuccess", "skip": "addSkip", "fail": "addFailure
                  "uxsuccess": "addUnexpectedSuccess", "unknown": "addFailure", "inprogress": "addFailure"}
 
 
-def gen(tape):
-    nw = 1 + tape.draw("program", 4, "workers")
+def gen(tape, big=False):
+    nw = 1 + tape.draw("program", 6 if big else 4, "workers")
     scripts = []
     k = [0]
     for w in range(nw):
         route = ROUTES[tape.draw("program", len(ROUTES), "route")]
         evs = []
-        for _ in range(1 + tape.draw("program", 6, "n-events")):
+        for _ in range(1 + tape.draw("program", 10 if big else 6, "n-events")):
             k[0] += 1
             ev = {"route_code": route}
             ev["test_id"] = None if tape.chance("program", 1, 8, "no-id") else tape.choice("program", IDS, "id")
@@ -146,7 +146,7 @@ def _ts(t):
 
 def run_one(tape, opts):
     out = Outcome()
-    scripts = gen(tape)
+    scripts = gen(tape, big=opts.get("tier") == "thorough")
     merged, decisions = merge(tape, scripts)
     cut = None
     if tape.chance("faults", 1, 3, "cut-run"):
